@@ -15,22 +15,23 @@
 #include "progs.h"
 
 typedef struct { const char *name; OrcTarget *t; unsigned dflags; } Tgt;
-static Tgt tgts[3]; static int n_tgts;
+static Tgt tgts[5]; static int n_tgts;
 
-static FILE *fs[2], *fb[2], *fj[2];   /* per bitness (0: 64, 1: 32) */
-static long boff[2];
-static int batchno[2], inbatch[2];
+static FILE *fs[4], *fb[4], *fj[4];   /* per kind of batch (0: x86-64, 1: x86-32, 2: mips, 3: neon) */
+static long boff[4];
+static int batchno[4], inbatch[4];
+static const char *bname[4] = { "b64", "b32", "bmips", "bneon" };
 static const char *outdir;
 #define BATCH 64
 
 static void open_batch (int w)
 {
   char p[512];
-  snprintf (p, sizeof p, "%s/b%d_s%d_%d.s", outdir, w ? 32 : 64, vh_args.shard, batchno[w]); fs[w] = fopen (p, "w");
-  snprintf (p, sizeof p, "%s/b%d_s%d_%d.bin", outdir, w ? 32 : 64, vh_args.shard, batchno[w]); fb[w] = fopen (p, "wb");
-  snprintf (p, sizeof p, "%s/b%d_s%d_%d.json", outdir, w ? 32 : 64, vh_args.shard, batchno[w]); fj[w] = fopen (p, "w");
+  snprintf (p, sizeof p, "%s/%s_s%d_%d.s", outdir, bname[w], vh_args.shard, batchno[w]); fs[w] = fopen (p, "w");
+  snprintf (p, sizeof p, "%s/%s_s%d_%d.bin", outdir, bname[w], vh_args.shard, batchno[w]); fb[w] = fopen (p, "wb");
+  snprintf (p, sizeof p, "%s/%s_s%d_%d.json", outdir, bname[w], vh_args.shard, batchno[w]); fj[w] = fopen (p, "w");
   if (!fs[w] || !fb[w] || !fj[w]) { perror ("open batch"); exit (2); }
-  fprintf (fs[w], ".text\n");
+  fprintf (fs[w], w == 2 ? ".text\n.set noreorder\n" : ".text\n");
   boff[w] = 0; inbatch[w] = 0;
 }
 static void close_batch (int w)
@@ -46,9 +47,9 @@ static void emit (int w, const char *fname, const char *listing, const unsigned 
   long pad;
   if (!fs[w]) open_batch (w);
   /* listing: make sure each function starts 16-aligned like the .bin */
-  fprintf (fs[w], "\n# ---- %s\n.p2align 4,0xcc\n%s\n", fname, listing);
+  fprintf (fs[w], w >= 2 ? "\n# ---- %s\n.p2align 4\n%s\n" : "\n# ---- %s\n.p2align 4,0xcc\n%s\n", fname, listing);
   pad = (16 - (boff[w] & 15)) & 15;
-  while (pad--) { fputc (0xcc, fb[w]); boff[w]++; }
+  while (pad--) { fputc (w >= 2 ? 0x00 : 0xcc, fb[w]); boff[w]++; }
   fwrite (code, 1, size, fb[w]);
   vh_buf_printf (&b, "{\"name\":\"%s\",\"offset\":%ld,\"size\":%d,\"case\":%ld,\"target\":\"%s\",\"flags\":%u,\"program\":", fname, boff[w], size, caseidx, tg->name, flags);
   gen_to_json (ps, &b);
@@ -85,6 +86,8 @@ static int flag_sets (const Tgt *tg, unsigned *out, int max, int mode_c11, VhRng
       out[n++] = ((d & ~all) | ORC_TARGET_SSE_SSE2);
       out[n++] = ((d & ~all) | f) & ~ORC_TARGET_SSE_64BIT;
     }
+  } else if (!strcmp (tg->name, "mips") || !strcmp (tg->name, "neon")) {
+    out[n++] = d;
   } else if (!strcmp (tg->name, "avx")) {
     out[n++] = d;
     out[n++] = d | ORC_TARGET_SSE_SHORT_JUMPS;
@@ -132,6 +135,10 @@ int main (int argc, char **argv)
   orc_init ();
   { const char *names[] = { "sse", "avx", "mmx" }; int i; for (i = 0; i < 3; i++) { OrcTarget *t = orc_target_get_by_name (names[i]);
       if (t) { tgts[n_tgts].name = names[i]; tgts[n_tgts].t = t; tgts[n_tgts].dflags = orc_target_get_default_flags (t); n_tgts++; } } }
+  /* C12 also has a standard assembler for MIPS (llvm-mc): listing and code of the mips back end are dumped into batches of their own */
+  if (!mode_c11) { OrcTarget *t = orc_target_get_by_name ("mips"); if (t) { tgts[n_tgts].name = "mips"; tgts[n_tgts].t = t; tgts[n_tgts].dflags = orc_target_get_default_flags (t); n_tgts++; } }
+  /* (neon: batches of kind 3 exist for experiments - `--aux2 neon` - but are not part of the check: see DESIGN.md, "Out of reach") */
+  if (!mode_c11 && vh_args.aux2 && !strcmp (vh_args.aux2, "neon")) { OrcTarget *t = orc_target_get_by_name ("neon"); if (t) { tgts[n_tgts].name = "neon"; tgts[n_tgts].t = t; tgts[n_tgts].dflags = orc_target_get_default_flags (t); n_tgts++; } }
   enumerate_single (profile);
   enumerate_pairs (profile & (GP_INT | GP_FLOAT | GP_ACC));
   N_single = n_single;
@@ -166,9 +173,9 @@ int main (int argc, char **argv)
         res = orc_program_compile_full (p, tgts[ti].t, fl[k]);
         vh_countf (1, "compile.%s.%s", tgts[ti].name, ORC_COMPILE_RESULT_IS_SUCCESSFUL (res) ? "ok" : ORC_COMPILE_RESULT_IS_FATAL (res) ? "fatal" : "nonfatal");
         if (ORC_COMPILE_RESULT_IS_SUCCESSFUL (res) && p->orccode && p->orccode->code && orc_program_get_asm_code (p)) {
-          w = (!strcmp (tgts[ti].name, "mmx") ? !(fl[k] & ORC_TARGET_MMX_64BIT) : !(fl[k] & ORC_TARGET_SSE_64BIT));
+          w = !strcmp (tgts[ti].name, "mips") ? 2 : !strcmp (tgts[ti].name, "neon") ? 3 : (!strcmp (tgts[ti].name, "mmx") ? !(fl[k] & ORC_TARGET_MMX_64BIT) : !(fl[k] & ORC_TARGET_SSE_64BIT));
           emit (w, fname, orc_program_get_asm_code (p), p->orccode->code, p->orccode->code_size, &ps, &tgts[ti], fl[k], c);
-          vh_countf (1, "dumped.%s.%s", tgts[ti].name, w ? "32" : "64");
+          vh_countf (1, "dumped.%s.%s", tgts[ti].name, w == 2 ? "mips32" : w == 3 ? "arm32" : w ? "32" : "64");
           vh_set_addf ("flagsets", "%s:%x", tgts[ti].name, fl[k]);
         }
         orc_program_free (p);
@@ -176,7 +183,7 @@ int main (int argc, char **argv)
     }
     if ((c & 63) == 0) vh_flush ();
   }
-  close_batch (0); close_batch (1);
+  close_batch (0); close_batch (1); close_batch (2); close_batch (3);
   vh_done ();
   return 0;
 }
